@@ -28,6 +28,7 @@ TRUSTED = ["inner traits are arbitrary validators in the theorems; the concrete 
 ASSUMPTIONS = ["stand-alone deep-copied / unpickled containers (owner None) do not validate by design; that is C14's subject"]
 
 _classes = {}
+LAST_FIRED = []   # per op of the last run_impl call: did the k-th-call-fails validator fire?
 
 
 def _item_trait(vspec):
@@ -158,6 +159,8 @@ def run_impl(case):
     init = S.parse_list(init)
     tags, hits, outs = set(), [], []
     events = []
+    del LAST_FIRED[:]
+    kfail = int(vspec.split(":")[1]) if vspec.startswith("failk") else None
     if counter is not None:
         counter[0] = 0
     try:
@@ -186,6 +189,7 @@ def run_impl(case):
             exc = e
         after = list(a.x)
         sig_op = w[0]
+        LAST_FIRED.append(counter is not None and counter[0] > kfail)
         # -------- oracle: the property statement
         if not isinstance(a.x, TraitListObject):
             hits.append(_hit("not-a-trait-list:" + sig_op, "value is no longer a TraitListObject"))
@@ -216,19 +220,40 @@ def run_impl(case):
 # nested / dict / set traits: oracle-only stream
 # ----------------------------------------------------------------------------
 
-_nested_cls = [None]
+_nested_cls = {}
 
 
-def nested_class():
-    if _nested_cls[0] is None:
-        from traits.api import HasTraits, List, Dict, Set, Str, Int, Range, CInt
-        _nested_cls[0] = type("N", (HasTraits,), {
-            "ll": List(List(Range(low=0), maxlen=2), maxlen=3),
-            "dl": Dict(Str, List(Range(low=0), minlen=1, maxlen=3)),
-            "st": Set(Range(0, 9)),
-            "dc": Dict(CInt, Range(0, 9)),
+def nested_class(failk=None):
+    """failk = (k, exc-name): every leaf trait additionally raises on its k-th call within an operation."""
+    if failk not in _nested_cls:
+        from traits.api import HasTraits, List, Dict, Set, Str, Range, CInt
+        counter = [0]
+        if failk is None:
+            def leaf(lo, hi=None):
+                return Range(lo, hi) if hi is not None else Range(low=lo)
+        else:
+            k, exc = failk
+
+            def leaf(lo, hi=None):
+                class FailRange(Range):
+                    def validate(self, obj, name, value):
+                        n = counter[0]
+                        counter[0] += 1
+                        if n == k:
+                            raise S.exc_class(exc)("k-th call fails")
+                        return super().validate(obj, name, value)
+                t = FailRange(lo, hi) if hi is not None else FailRange(low=lo)
+                # the fast validator would bypass validate(); force the Python path
+                t.fast_validate = None
+                return t
+        cls = type("N", (HasTraits,), {
+            "ll": List(List(leaf(0), maxlen=2), maxlen=3),
+            "dl": Dict(Str, List(leaf(0), minlen=1, maxlen=3)),
+            "st": Set(leaf(0, 9)),
+            "dc": Dict(CInt, leaf(0, 9)),
         })
-    return _nested_cls[0]
+        _nested_cls[failk] = (cls, counter)
+    return _nested_cls[failk]
 
 
 def check_state(obj):
@@ -395,8 +420,10 @@ def _apply_nested(obj, path, m, args):
 
 
 def run_nested(case):
-    from traits.api import TraitError
-    cls = nested_class()
+    fk = tuple(case["failk"]) if case.get("failk") else None
+    cls, counter = nested_class(fk)
+    del LAST_FIRED[:]
+    counter[0] = -10 ** 6     # setup never fails
     obj = cls()
     if not case.get("empty"):
         obj.ll = [[1], [2, 3]]
@@ -412,10 +439,13 @@ def run_nested(case):
         snap = snapshot(obj)
         del events[:]
         exc = None
+        counter[0] = 0
         try:
             _apply_nested(obj, path, m, copy.deepcopy(args))
         except Exception as e:
             exc = e
+        LAST_FIRED.append(fk is not None and counter[0] > fk[0])
+        counter[0] = -10 ** 6
         probs = check_state(obj)
         sig = "%s.%s" % (path[0] + ("[]" if len(path) > 1 else ""), m)
         for p in probs:
@@ -430,7 +460,7 @@ def run_nested(case):
                 hits.append(_hit("failed-op-notified:" + sig, "failing %s emitted %s" % (sig, events)))
             outs.append("err " + S.exc_name(exc))
         else:
-            outs.append("ok")
+            outs.append("ok " + json.dumps(snapshot(obj), sort_keys=True, separators=(",", ":")) + " " + ",".join(events))
     return " ; ".join(outs), hits, tags
 
 
